@@ -6,6 +6,9 @@ package main
 // event, never a model prediction) before the books are read.
 
 import (
+	"path/filepath"
+	"runtime"
+	"os"
 	"bufio"
 	"context"
 	"encoding/binary"
@@ -338,6 +341,10 @@ type vhost struct {
 	evs     []*evRec
 	lastWindow *hookConn
 	closeHook  func(conn types.ClientConnection)
+	writeHook  func(c *hookConn)
+	windowGauge   int64 // upstream_connection_active sampled inside Connect() after the fresh connection's close event was handled
+	windowSampled bool
+	hooks      []*hookConn // every connection handed to the pool, in creation order (tail = listener behind the pool's)
 	window  bool // the next connection's Connect() returns only after the upstream's immediate close has reached mosn
 	created []types.ClientConnection
 }
@@ -367,6 +374,19 @@ type hookConn struct {
 	window     bool
 }
 
+// Write: when a write hook is armed it runs right after the bytes went out, still inside the pool's / stream's Write call
+func (c *hookConn) Write(bufs ...buffer.IoBuffer) error {
+	err := c.ClientConnection.Write(bufs...)
+	c.h.mu.Lock()
+	f := c.h.writeHook
+	c.h.writeHook = nil
+	c.h.mu.Unlock()
+	if f != nil {
+		f(c)
+	}
+	return err
+}
+
 func (c *hookConn) Close(t api.ConnectionCloseType, ev api.ConnectionEvent) error {
 	c.h.mu.Lock()
 	f := c.h.closeHook
@@ -390,16 +410,24 @@ func (e *evRec) sawClose() bool {
 }
 
 func (c *hookConn) Connect() error {
+	// the pool has registered its listeners by now: a listener added here runs after them
+	c.ClientConnection.AddConnectionEventListener(c.tail)
 	if !c.window {
 		return c.ClientConnection.Connect()
 	}
-	// the pool has registered its listeners by now: a listener added here runs after them
-	c.ClientConnection.AddConnectionEventListener(c.tail)
 	err := c.ClientConnection.Connect()
 	if err == nil {
 		// the delivery of the close event has started (first listener) ...
 		waitFor(500*time.Millisecond, c.head.sawClose)
 		time.Sleep(500 * time.Microsecond) // ... and the pool's handlers run up to the pool's lock, or to the end
+		// sample the connection gauge INSIDE the connect path: the close event of the fresh connection has been handled,
+		// the pool's connect path has not yet gone on
+		if c.tail.sawClose() {
+			g := c.h.Host.HostStats().UpstreamConnectionActive.Count()
+			c.h.mu.Lock()
+			c.h.windowGauge, c.h.windowSampled = g, true
+			c.h.mu.Unlock()
+		}
 	}
 	return err
 }
@@ -438,7 +466,9 @@ func (h *vhost) CreateConnection(ctx context.Context) types.CreateConnectionData
 		c := network.NewClientConnection(time.Second, nil, deadAddr, nil)
 		return types.CreateConnectionData{Connection: c, Host: h}
 	case dialTimeout:
-		c := &timeoutConn{ClientConnection: network.NewClientConnection(time.Second, nil, deadAddr, nil)}
+		// the REAL connect path with a connect timeout that has always expired: net.DialTimeout fails with an i/o timeout,
+		// clientConnection.Connect delivers api.ConnectTimeout to the registered listeners and returns the error
+		c := network.NewClientConnection(time.Nanosecond, nil, h.Host.Address(), nil)
 		return types.CreateConnectionData{Connection: c, Host: h}
 	}
 	d := h.Host.CreateConnection(ctx)
@@ -448,6 +478,7 @@ func (h *vhost) CreateConnection(ctx context.Context) types.CreateConnectionData
 	h.created = append(h.created, d.Connection)
 	d.Host = h
 	wc := &hookConn{ClientConnection: d.Connection, h: h, head: rec, tail: &evRec{}, window: h.window}
+	h.hooks = append(h.hooks, wc)
 	if h.window {
 		h.window = false
 		h.lastWindow = wc
@@ -561,6 +592,7 @@ type world struct {
 	ext      int
 	failedDials int
 	mu2         sync.Mutex // leases appended by concurrent NewStream calls (h2 pair)
+	stuck       []string      // sendCloseRace: streams that never ended
 	raceDelay   time.Duration // respRace: the reset is fired this much after the answer was written
 	noHeldWait  bool // the caller waits for the streams of a closed connection itself
 	noModel     bool
@@ -608,16 +640,31 @@ func (w *world) close() {
 		waitFor(200*time.Millisecond, func() bool { return c.closedMosnSide() })
 		c.conn.Close(api.NoFlush, api.LocalClose)
 	}
+	// never close while holding the host's lock: a close event may make the pool close another connection (binding pool:
+	// the downstream connection's listener), which comes back through hookConn.Close
 	w.host.mu.Lock()
-	for _, c := range w.host.created {
+	created := append([]types.ClientConnection(nil), w.host.created...)
+	w.host.mu.Unlock()
+	for _, c := range created {
 		c.Close(api.NoFlush, api.LocalClose)
 	}
-	w.host.mu.Unlock()
 }
+
+var slowWaits = os.Getenv("VH_SLOW") != ""
 
 func waitFor(d time.Duration, cond func() bool) bool {
 	if cond() {
 		return true
+	}
+	if slowWaits {
+		t0 := time.Now()
+		defer func() {
+			if el := time.Since(t0); el > time.Second {
+				_, f1, l1, _ := runtime.Caller(2)
+				_, f2, l2, _ := runtime.Caller(3)
+				fmt.Printf("SLOWWAIT %v %s:%d <- %s:%d\n", el, filepath.Base(f1), l1, filepath.Base(f2), l2)
+			}
+		}()
 	}
 	dl := time.Now().Add(d)
 	for i := 0; ; i++ {
@@ -890,6 +937,34 @@ func (w *world) respRace(l *lease) {
 	// the connection of a reset exchange is closed by the pool: let the close be handled
 	c := w.clients[l.cli]
 	waitFor(20*time.Millisecond, func() bool { return atomic.LoadInt32(&c.closeEvs) > 0 })
+}
+
+// sendCloseRace: the connection closes exactly between the write of the request and its pick-up by the response reader
+// (the close is performed, and its event handled by every listener, inside the Write call of the request)
+func (w *world) sendCloseRace(l *lease) bool {
+	if l.sent || !l.live() || l.cli < 0 || w.clients[l.cli].closedMosnSide() {
+		return false
+	}
+	w.host.mu.Lock()
+	w.host.writeHook = func(c *hookConn) {
+		c.ClientConnection.Close(api.NoFlush, api.LocalClose)
+		waitFor(2*time.Second, c.tail.sawClose)
+	}
+	w.host.mu.Unlock()
+	l.sent = true
+	if w.kind == kHTTP1 {
+		h := mosnhttp.RequestHeader{RequestHeader: &fasthttp.RequestHeader{}}
+		h.Set("X-Tok", strconv.Itoa(l.tok))
+		l.sender.AppendHeaders(l.ctx, h, true)
+	} else {
+		l.sender.AppendHeaders(l.ctx, &ppFrame{typ: ppRequest, tok: uint32(l.tok)}, true)
+	}
+	w.host.mu.Lock()
+	w.host.writeHook = nil
+	w.host.mu.Unlock()
+	// the stream must end: its connection is closed and every listener has handled the event
+	w.wait("stream-end-after-close-between-write-and-pickup", 5*time.Second, func() bool { return !l.live() })
+	return true
 }
 
 func (w *world) localReset(l *lease) {
